@@ -20,11 +20,18 @@ func (g *Gen) add(c Case) {
 	g.dist[c.Desc]++
 }
 
+// quickMult scales every quick-tier budget (the thorough budgets are fixed). The quick budgets were set when
+// the model driver ran on one core; it is sharded over the cores now, so the same wall time covers more cases.
+const quickMult = 10
+
 func (g *Gen) budget(quick, thorough int) int {
 	if g.tier == "thorough" {
 		return thorough
 	}
-	return quick
+	if quick*quickMult > thorough {
+		return thorough
+	}
+	return quick * quickMult
 }
 
 // ---------------------------------------------------------------- inputs
